@@ -9,8 +9,13 @@ recorded syntactically (names and orientation signs, result classes).
 code -> spec: spec/TraceGroups.tla reads the record, rebuilds the document from the abstract
 form (project.abstract_text) of the lines that were really added, recomputes every answer with
 the operators of Groups.tla and prints a REJECT tuple per disagreement.  No verdict is
-computed in Python."""
-import json, os, re, signal, sys, time, random, copy
+computed in Python.
+
+Each (family, shard) is one job of a process pool: MC_Groups (one TLC) -> gfapy -> TraceGroups
+(one TLC); only the rejected cases and the counters travel back to the parent.
+./check C17 --replay <file> re-runs one recorded case and prints what was added, what gfapy
+answered and what the specification expects."""
+import json, os, signal, sys, time, random, copy
 from multiprocessing import Pool as MPool
 
 from . import tlc, project
@@ -472,7 +477,8 @@ def run_families(fams, name):
         for sh in range(f["nsh"]):
             jobs.append((f, sh, "%s/%s-%d" % (name, f["name"], sh)))
     tlc.workdir(name)
-    # big shards first
+    heavy = ["nestO3", "nestO2", "nestU-cyc", "nestU-paths", "splitO", "splitU"]   # slow per case: start them first
+    jobs.sort(key=lambda j: heavy.index(j[0]["name"]) if j[0]["name"] in heavy else len(heavy))
     with MPool(processes=min(tlc.NCPU, len(jobs))) as mp:
         res = mp.map(shard_job, jobs, chunksize=1)
     return res
@@ -595,12 +601,15 @@ def selftest():
         # a set cut into two lines
         {"g": 1, "arr": 3, "lines": [["U", "u", C.ix("a"), 2], ["U", "u", C.ix("b d"), 3]],
          "cls": [["u", "U", "set", True, False]], "from_tlc": False},
+        # the second line contradicts a tag of the first: refused, group unchanged
+        {"g": 1, "arr": 1, "lines": [["O", "o", C.ix("a+ e1+"), 2], ["O", "o", C.ix("b+"), 4]],
+         "cls": [["o", "O", "walk", False, False]], "from_tlc": False},
     ]
     gfapy = _load_gfapy()
     _limits()
     pool = project.Pool()
     recs = [run_case(gfapy, c, pool, i) for i, c in enumerate(base)]
-    want = {0: [], 1: []}
+    want = {0: [], 1: [], 2: []}
 
     def mutant(i, fn, clause):
         r = copy.deepcopy(recs[i])
@@ -663,6 +672,19 @@ def selftest():
     mutant(1, extra_seg, "C17.set")
     mutant(1, reorder_items, "C17.items")
     mutant(1, raise_instead, "C17.set-error")
+
+    def accept_contradiction(r):
+        r["ev"][-1]["res"] = "ok"
+
+    def merged_anyway(r):
+        r["ev"][-1]["gi"].append({"id": "b", "o": "+"})
+
+    def tag_overwritten(r):
+        r["ev"][-1]["gt"] = ["xx:i:2"]
+
+    mutant(2, accept_contradiction, "C17.tags")
+    mutant(2, merged_anyway, "C17.tags")
+    mutant(2, tag_overwritten, "C17.tags")
     rej, _ = validate_records(recs + muts, pool, tlc.workdir("groups-selftest"))
     for cid, w in want.items():
         got = rej.get(cid, [])
